@@ -3,6 +3,7 @@
 package newrelic
 
 import (
+	"bytes"
 	"encoding/json"
 	"fmt"
 	"math"
@@ -494,15 +495,26 @@ func (v *vProcT) collect(n int) string {
 			i = n
 		}
 	}
-	for k := 0; k < 20; k++ {
-		runtime.Gosched()
-		select {
-		case r := <-v.arrivals:
-			if r.payload != "*" {
-				got = append(got, r.canon())
+	// stragglers: wait until every other goroutine is parked (or gone), then take what has arrived; goroutines the op
+	// started (harvestDataUsage of an empty harvest, for one) have then run to their next blocking point, so what they
+	// do is attributed to this op and not to a later one
+	for k := 0; k < 3; k++ {
+		vQuiesce()
+		more := false
+	drain:
+		for {
+			select {
+			case r := <-v.arrivals:
+				if r.payload != "*" {
+					got = append(got, r.canon())
+				}
+				more = true
+			default:
+				break drain
 			}
-			k = 0
-		default:
+		}
+		if !more {
+			break
 		}
 	}
 	if len(got) == 0 {
@@ -510,6 +522,45 @@ func (v *vProcT) collect(n int) string {
 	}
 	sort.Strings(got)
 	return strings.Join(got, ";")
+}
+
+// vQuiesce returns when no goroutine other than the caller is running or runnable (two consecutive goroutine dumps),
+// or after 300 ms.
+func vQuiesce() {
+	buf := make([]byte, 1<<18)
+	calm := 0
+	start := time.Now()
+	for calm < 2 && time.Since(start) < 300*time.Millisecond {
+		runtime.Gosched()
+		var n int
+		for {
+			n = runtime.Stack(buf, true)
+			if n < len(buf) {
+				break
+			}
+			buf = make([]byte, 2*len(buf))
+		}
+		busy := 0
+		for i, blk := range bytes.Split(buf[:n], []byte("\n\n")) {
+			if i == 0 {
+				continue // the caller
+			}
+			nl := bytes.IndexByte(blk, '\n')
+			if nl < 0 {
+				continue
+			}
+			hdr := blk[:nl]
+			if bytes.Contains(hdr, []byte("[running")) || bytes.Contains(hdr, []byte("[runnable")) {
+				busy++
+			}
+		}
+		if busy == 0 {
+			calm++
+		} else {
+			calm = 0
+			time.Sleep(20 * time.Microsecond)
+		}
+	}
 }
 
 func (v *vProcT) pick(owner, cmd string, idx int) *vReq {
